@@ -149,11 +149,12 @@ CHECKS["C07"] = dict(
 CHECKS["C08"] = dict(
     text="Theorems about the Hexital model: a member on its own manager behaves exactly like the standalone indicator with the same "
          "manager configuration (values and exceptions); members sharing a manager never alter candle OHLCV/timestamps nor each "
-         "other's entries (engine frame theorem, all 27 kinds). Tie: the Hexital model run against hexital.Hexital (check_hx). "
+         "other's entries (engine frame theorem, all 27 kinds); a member without helper series that shares a manager with any other "
+         "members has, candle by candle, the entries of its standalone twin (non-interference theorem). Tie: the Hexital model run against hexital.Hexital (check_hx). "
          "Falsifier: member vs standalone twin fed the same schedule, object/"
          "dict/settings forms, Hexital-level timeframe/fill/lifespan/HA, base candles unaltered.",
     note="The Hexital model (construction incl. own-timeframe seeding, append and all maintenance operations) is executed against "
-         "hexital.Hexital bit for bit (check_hx); equality of several members sharing one "
+         "hexital.Hexital bit for bit (check_hx); equality of members WITH helper series sharing one "
          "manager with their standalone twins is decided by the falsifier. Known findings K2 (lifespan + own timeframe seeded from trimmed candles) and K3 (Hexital timeframe + fill: own timeframe seeded from filled candles). Axioms: none.",
     technique="Coq proof (engine frame theorem, single-member refinement) + vm_compute correspondence of the Hexital model + falsifier", design="5/C08")
 CHECKS["C09"] = dict(
